@@ -131,22 +131,17 @@ impl NewerOptionMatcher {
         Ok(Self {
             x_option,
             y_option,
-            given_modification_time: metadata.modified()?,
+            given_modification_time: y_option.get_file_time(&metadata)?,
         })
     }
 
     fn matches_impl(&self, file_info: &WalkEntry) -> Result<bool, Box<dyn Error>> {
         let x_option_time = self.x_option.get_file_time(file_info.metadata()?)?;
-        let y_option_time = self.y_option.get_file_time(file_info.metadata()?)?;
 
         Ok(self
             .given_modification_time
             .duration_since(x_option_time)
-            .is_err()
-            && self
-                .given_modification_time
-                .duration_since(y_option_time)
-                .is_err())
+            .is_err())
     }
 }
 
